@@ -90,7 +90,20 @@ class C19(Check):
             ops.append({'peer': rng.randrange(3), 'd': rng.randrange(len(DATAGRAMS)) if rng.random() < 0.6 else 0,
                         'dt': rng.choice([0, 0, 0.01, 1.0]),
                         'net': rng.choice(['ok', 'ok', 'ok', 'lost', 'dup', 'late'])})
-        shape = {'p_switch': rng.choice([0.1, 0.5]), 'equipment_id': gen_text(rng, idn, ALPHABETS[ida]),
+        eid = gen_text(rng, idn, ALPHABETS[ida])
+        if rng.random() < 0.12:
+            # the identity alone (empty description, five digit port) at the edge of the budget: exactly MAXLEN bytes,
+            # or a few more or less
+            def idlen(e):
+                return len(json.dumps({'SECoP': 'node', 'port': 65535, 'equipment_id': e, 'firmware': 'FRAPPY sim',
+                                       'description': ''}, ensure_ascii=False, separators=(',', ':')).encode('utf-8'))
+            want = MAXLEN + rng.choice([0, 0, 0, -1, 1, -2, 2])
+            eid = gen_text(rng, 470, ALPHABETS[ida])
+            while eid and idlen(eid) > want:
+                eid = eid[:-1]
+            while idlen(eid) < want:
+                eid += 'x'
+        shape = {'p_switch': rng.choice([0.1, 0.5]), 'equipment_id': eid,
                  'description': gen_text(rng, n, ALPHABETS[alpha]), 'ifaces': ifaces,
                  'broadcast': rng.random() < 0.7}
         if rng.random() < 0.15:
